@@ -63,6 +63,38 @@ pub struct RecOpts {
     pub rare: u64,
 }
 
+impl HeaderOpts {
+    /// everything the VCF quantifier lists (C09)
+    pub fn full() -> Self {
+        Self::default()
+    }
+    /// BCF-representable: declared contigs, no VCF 4.5-only Number values, given IDX mode (C10)
+    pub fn bcf(idx: IdxMode) -> Self {
+        HeaderOpts { idx, model: Model::Bcf, v45_numbers: false, ..Self::default() }
+    }
+    /// everyday headers: plain IDs, a few samples
+    pub fn common() -> Self {
+        HeaderOpts { model: Model::Common, extras: false, v45_numbers: false, max_samples: 4, ..Self::default() }
+    }
+    /// headers for index tests: contigs at least `min_len` long
+    pub fn indexable(min_len: usize) -> Self {
+        HeaderOpts { model: Model::Common, extras: false, v45_numbers: false, max_samples: 3, min_contig_len: Some(min_len), ..Self::default() }
+    }
+}
+
+impl RecOpts {
+    pub fn full() -> Self {
+        Self::default()
+    }
+    pub fn bcf() -> Self {
+        RecOpts { model: Model::Bcf, nan: true, invalid_ints: false, rare: 16 }
+    }
+    /// finite floats, plain strings, none of the rare shapes
+    pub fn common() -> Self {
+        RecOpts { model: Model::Common, nan: false, invalid_ints: false, rare: u64::MAX }
+    }
+}
+
 impl Default for RecOpts {
     fn default() -> Self {
         RecOpts { model: Model::Full, nan: true, invalid_ints: false, rare: 12 }
@@ -170,10 +202,10 @@ pub fn gen_header(rng: &mut Rng, o: &HeaderOpts) -> HeaderDesc {
 
     // INFO: span fields + a rotating window over every Number x Type
     let mut used: Vec<String> = Vec::new();
-    if rng.chance(3, 4) {
+    if rng.chance(3, 4) || o.min_contig_len.is_some() {
         h.infos.push(FieldDef { id: "END".into(), num: Num::Count(1), ty: Ty::Integer, desc: "End position".into(), idx: None, extra: vec![] });
     }
-    if rng.chance(3, 4) {
+    if rng.chance(3, 4) || o.min_contig_len.is_some() {
         let num = if ff >= (4, 4) { Num::A } else { Num::Dot };
         h.infos.push(FieldDef { id: "SVLEN".into(), num, ty: Ty::Integer, desc: "SV length".into(), idx: None, extra: vec![] });
     }
@@ -829,7 +861,7 @@ pub fn gen_record_at(rng: &mut Rng, h: &HeaderDesc, o: &RecOpts, place: Option<(
     }
     .min(defs.len());
     let char_reserved_record = full && rare(rng);
-    let missing_info_record = rng.chance(1, o.rare.max(1) * 2);
+    let missing_info_record = rng.chance(1, o.rare.max(1).saturating_mul(2));
     for d in defs.iter().take(n_info) {
         if d.id == "END" || d.id == "SVLEN" {
             continue; // handled below
